@@ -167,7 +167,7 @@ reg(Spec('C10', ['c10:C10'],
          thorough=[('RACE', 60000), ('DUPLEX', 20000), ('ADV', 60000)],
          overrides={'*': {'settings_bias': {3: [0, 1, 1, 2, 3]}, 'at_limit_attempts': 0.4, 'ops_boost': {'open': 3, 'push': 3, 'settings': 2},
                           'settings_churn': 0.1, 'adv_new_streams': 0.35, 'misuse': 0.15, 'misuse_focus': [1, 1, 2, 0], 'aftermath': 0.4,
-                          'adv_push_response': 0.5}},
+                          'adv_push_response': 0.5, 'empty_settings': 0.15}},
          rule=R_RUN + 'non-trivial = a run that reached a concurrency limit (either direction)' + R_DISTINCT))
 
 reg(Spec('C22', ['c22:C22'],
